@@ -5,6 +5,12 @@ import json, os, tomllib
 HERE = os.path.dirname(os.path.dirname(os.path.abspath(__file__)))
 reg = tomllib.load(open(os.path.join(HERE, "registry.toml"), "rb"))
 na = tomllib.load(open(os.path.join(HERE, "not_applicable.toml"), "rb"))
+# properties that have at least one Kani harness (tags `//@ harness .. property=Cxx[,Cyy]` in kani/*.rs)
+import glob as _glob, re as _re
+kani_props = set()
+for _f in _glob.glob(os.path.join(HERE, "kani", "*.rs")):
+    for _m in _re.finditer(r"//@ harness[^\n]*property=([A-Z0-9,]+)", open(_f).read()):
+        kani_props |= set(_m.group(1).split(","))
 ids = [json.loads(l)["id"] for l in open(os.path.join(HERE, "properties.jsonl"))]
 checks = []
 for pid in ids:
@@ -17,7 +23,7 @@ for pid in ids:
         "thorough_cmd": f"./check {pid} --tier thorough",
         "evidence_file": f"/verif/evidence/{pid}.json",
         "replay_cmd_template": "./check --replay {path}",
-        "engine": c.get("engine", "verus+kani"),
+        "engine": c.get("engine", "verus+kani" if pid in kani_props else "verus"),
         "level_claimed": {"category": c["level"], "text": c["level_text"], "design_ref": c.get("design_ref", "DESIGN.md section 4")},
         "level_note": c["level_note"],
         "technique": c["technique"],
@@ -26,13 +32,6 @@ claimed = {c["property_id"] for c in checks}
 nal = [{"property_id": p, "reason": na["reason"][p]} for p in ids if p not in claimed]
 missing = [p for p in ids if p not in claimed and p not in na["reason"]]
 assert not missing, missing
-# properties that have at least one Kani harness (tags `//@ harness .. property=Cxx[,Cyy]` in kani/*.rs)
-import glob as _glob, re as _re
-kani_props = set()
-for _f in _glob.glob(os.path.join(HERE, "kani", "*.rs")):
-    for _m in _re.finditer(r"//@ harness[^\n]*property=([A-Z0-9,]+)", open(_f).read()):
-        kani_props |= set(_m.group(1).split(","))
-
 m = {
     "version": 1,
     "setup_cmd": "./setup.sh",
